@@ -1640,7 +1640,7 @@ DT_SPELL = ["2001-01-01T12:00", "2001-001T12:00:00Z", "2001-01-01T23:59:60", "20
             "2001-01-01T12:00:00.000001Z", "2001-01-01T12:00:00-0700",
             "2001-01-01T10:00-00:30", "2001-01-01T10:00:00-03:30", "2001-001T10:00-09:30", "2001-01-01T10:00-05:45",
             "2001-01-01T10:00+05:45", "2001-01-01T10:00:00.5+09:30"]
-UNIT_SPELL = ["<m>", "< m >", "<m/s**2>", "<KM/S>", "<degrees north>", "<%>", "<a b  c>"]
+UNIT_SPELL = ["<m>", "< m >", "<m/s**2>", "<KM/S>", "<degrees north>", "<%>", "<a b  c>", "<>", "< >"]   # (also the empty expression)
 SEQ_SPELL = ["()", "(1)", "(1, 2, 3)", "(1,2,3)", "( 1 , 2 )", "((1,2),(3))", "(((1)))", '("a b", c, 2.5)',
              "(1 <m>, 2 <m>)", "(1, 2) <m>", "(1,\n 2,\n 3)", "(NULL, TRUE)", "(12:00, 2001-01-01)", "((1, 2) <m>, 3)",
              '("' + "long item " * 4 + '", "' + "long item " * 4 + '", "' + "long item " * 4 + '")',
